@@ -656,11 +656,13 @@ Definition c08_ex_803_804 : list event :=
 Lemma c08_ex_803_804_run : c08_trace_check (c08_ex_cfg Acceptor) c08_ex_803_804 = [(4%nat, 803); (4%nat, 804)].
 Proof. vm_compute. reflexivity. Qed.
 
-(* 802 (finding queued-app-flushed-outside-logon): after the engine's own Logout an application message is queued; the
-   answer to a ResendRequest flushes the whole queue before the run loop has dropped it *)
+(* 802: the finding queued-app-flushed-outside-logon was repaired (b6d3b39): a replay no longer flushes what was queued outside
+   a logon.  What still refutes the clause on arbitrary event lists is an APPLICATION that itself sends a Logout-typed
+   message through SendToTarget and keeps sending afterwards: the session stays logged on, the predicate has seen "our
+   Logout" on the wire.  (Outside the property: the engine's Logout is the one the engine initiates.) *)
 Definition c08_ex_802 : list event :=
-  [EConnect; EIncoming (c08_ex_msg T_LOGON 1); EStop; EAppSend (B "D") [] true; EIncoming (c08_ex_resend_request 2 1 0)].
-Lemma c08_ex_802_run : c08_trace_check (c08_ex_cfg Acceptor) c08_ex_802 = [(4%nat, 802)].
+  [EConnect; EIncoming (c08_ex_msg T_LOGON 1); EAppSend (B "5") [] true; EFlush; EAppSend (B "D") [] true; EFlush].
+Lemma c08_ex_802_run : c08_trace_check (c08_ex_cfg Acceptor) c08_ex_802 = [(5%nat, 802)].
 Proof. vm_compute. reflexivity. Qed.
 
 Lemma c08_806_refuted : exists c es, free_of [806] (c08_check (combine es (map obs_of (run_trace es (init_sess c))))) = false.
